@@ -31,10 +31,9 @@ ASSUMPTIONS = [
     "word tables of parserinfo subclasses are ASCII (str.lower is modelled for ASCII + KELVIN SIGN); WEEKDAYS has at most 7 entries",
     "tzinfos values are tzinfo | TZ string | int | None; a float etc. raises TypeError by design (modelled: TzData.bad); exceptions of "
     "a user callable or of a user tzinfo object's tzname() are the caller's code, not parse()'s",
-    "a MALFORMED TZ-string value is NOT excluded: tz.tzstr(tzdata) raises a plain ValueError (month 13: IllegalMonthError at "
-    "tzname()) that parse() does not wrap although its docstring promises ParserError 'if the provided tzinfo is not in a valid "
-    "format' — known finding D-C14-tzinfos-bad-tzstring; parse_total carries the hypothesis TzInfos.StringsValid by name and "
-    "parse_bad_tzstring_escapes shows it is needed; bad TZ strings are generated in every stream",
+    "a MALFORMED TZ-string value and a tzinfos callable that raises ValueError are NOT excluded: they are generated in every stream "
+    "and must give ParserError (tz.tzstr's ValueError / IllegalMonthError at tzname() are wrapped since /repo 950345d; before "
+    "that fix a plain ValueError escaped — found by review 2, fixed; reverting the fix is caught by these streams)",
     "the model's answer is Lean's alone: a TZ string's names for the wall time come from the Lean model of tz.tzstr "
     "(parser.assignstr); only ENVIRONMENT facts are fed in: time.tzname, the names/offsets a tzlocal() built at that moment "
     "reports, the names a caller-supplied tzinfo object reports, Python's character classes",
@@ -375,15 +374,6 @@ def oracle(ctx):
                 if not ok:
                     m = L.model_answers(ctx, [c])[0]
                     case = c.describe()
-                    # D-C14-tzinfos-bad-tzstring: exactly a plain ValueError, the Lean model (whose only ValueError source is the
-                    # TZ-string constructor / its transitions) says the same, and tzinfos does carry a TZ-string value
-                    exact = (ans == "err ValueError" and m == ans and not c.ignoretz
-                             and any(v[0] == "s" for v in list(c.tz.entries.values()) + [c.tz.dflt]))
-                    case["known_class"] = "D-C14-tzinfos-bad-tzstring" if exact else None
-                    if exact:
-                        ctx.count("known_class_D-C14-tzinfos-bad-tzstring_hits")
-                        if ctx.hist["known_class_D-C14-tzinfos-bad-tzstring_hits"] > 25:
-                            continue
                     ctx.violation("parse() outcome outside {datetime, (datetime, tuple), ParserError, OverflowError}: %s" % ans[:80],
                                   case, {"impl": ans, "model": m})
             # "same text twice": the second call of a slice of every generator family, right after the first
@@ -488,9 +478,7 @@ def oracle(ctx):
 
 
 KNOWN = {"D-C14-superlinear-time": lambda v: v["case"].get("known_class") == "D-C14-superlinear-time"
-         and v["case"].get("family") in SUPERLINEAR_KNOWN and 1.7 < v["case"].get("exponent", 0) < 2.5,
-         "D-C14-tzinfos-bad-tzstring": lambda v: v["case"].get("known_class") == "D-C14-tzinfos-bad-tzstring"
-         and v["detail"].get("impl") == "err ValueError" and v["detail"].get("model") == "err ValueError"}
+         and v["case"].get("family") in SUPERLINEAR_KNOWN and 1.7 < v["case"].get("exponent", 0) < 2.5}
 
 
 def replay(ctx, payload):
